@@ -281,7 +281,38 @@ def _isnum(x):
     return _b.isinstance(x, (int, float, _SymNum)) and not (_b.isinstance(x, float) and _math.isinf(x))
 
 
+def _set_extreme(cmp_gt, args, key, default):
+    """min/max(<symbolic set of numbers>[, default=d]): a fresh r with  r in s  and  forall q in s: r <= q
+    (resp. >=) on the non-empty side; on the empty side  forall q: q not in s  and the default (or ValueError).
+    Python sets are finite, so exactly one side applies to every concrete set."""
+    if len(args) != 1 or key is not None or not _b.isinstance(args[0], SymSet) or not _ctx.active():
+        return _NO
+    st = args[0]
+    ety = st._ty.elem
+    if ety.sort() not in (z3.IntSort(), z3.RealSort()):
+        return _NO
+    from .spec import forall, implies, contains
+    c = _c()
+    st._ty.assume_wf(st.term)
+    frozen = st.copy()                     # the set as it is now (facts below speak about this value)
+    if not c.branch(st._ty.dt.size(st.term) != 0, site="set-extreme-empty"):
+        # (well-formedness: size == 0 <=> the membership array is constantly False)
+        if default is not _b.object:
+            return default
+        raise ValueError("min()/max() arg is an empty sequence")
+    rt_ = c.fresh("set_max" if cmp_gt else "set_min", ety.sort())
+    c.assume(frozen._has(rt_))
+    c.note_term(rt_)
+    r = ety.wrap(rt_)
+    c.assume_value(forall(ety, (lambda q: implies(contains(frozen, q), q <= r)) if cmp_gt
+                          else (lambda q: implies(contains(frozen, q), r <= q)), "smin"))
+    return r
+
+
 def min_(*args, key=None, default=_b.object):
+    r = _set_extreme(False, args, key, default)
+    if r is not _NO:
+        return r
     r = _map_extreme(False, args, key, default)
     if r is not _NO:
         return r
@@ -291,6 +322,9 @@ def min_(*args, key=None, default=_b.object):
 
 
 def max_(*args, key=None, default=_b.object):
+    r = _set_extreme(True, args, key, default)
+    if r is not _NO:
+        return r
     r = _map_extreme(True, args, key, default)
     if r is not _NO:
         return r
